@@ -48,13 +48,14 @@ def build(src, returns_none):
                 "dummy": [idx[id(s)] for s in bb.dummy_successors],
                 "reach": bool(bb.reachable)})
         assert cfg.entry_bb is cfg.bbs[0] and cfg.exit_bb is cfg.bbs[1]
-        blocks, off = pyast.shift_tmps(blocks)
+        blocks, off, odd = pyast.shift_tmps(blocks)
     except pyast.Unencodable as e:
         return {"ok": False, "err": "Unencodable", "msg": str(e)}
     dump = [f"{i}: reach={int(b['reach'])} stmts={[pyast.simple_src(s) for s in b['stmts']]} "
             f"pred={None if b['pred'] is None else pyast.expr_src(b['pred'])} succ={b['succs']} dummy={b['dummy']}"
             for i, b in enumerate(blocks)]
-    return {"ok": True, "tokens": [pyast.block_tok(b) for b in blocks], "coq": pyast.cfg_coq(blocks), "dump": dump}
+    return {"ok": True, "tokens": [pyast.block_tok(b) for b in blocks], "coq": pyast.cfg_coq(blocks), "dump": dump,
+            "nonstandard_hidden_names": odd}
 
 
 def main():
